@@ -95,14 +95,18 @@ CHECKS["C08"] = ("proof",
     "5/C08", E2NOTE + " Exactly-once drop relies on Rust's ownership semantics given the absence of unsafe/leak primitives (C18).", "deny-list call rules + field-site inventory + frame/drop events of the abstract interpreter")
 
 CHECKS["C14"] = ("other",
-    "Partial claim, structural necessary conditions only: confinement of printed ids to self.id and the Start payloads of one Traverse from self.id, open/close pairing on the Start/End arms, "
-    "last-sibling flag = next_sibling().is_none() of the opened node, agreement and documented values of the four guide-string tables (evaluated by E2), Display/Debug body identity. "
-    "The exact text layout for all trees and payloads and panic-freedom of the indent arithmetic are NOT decided and not claimed.",
-    "5/C14", "Relies on C09 for what the Traverse yields; the IndentWriter line state machine is outside the decided part.", "origin/dominance rules over MIR + constant tables by abstract evaluation + canonical-MIR comparison")
+    "Step tables decided by abstract interpretation of the MIR, each compared with a reference: (6) the indent writer as a transducer (open / close / one line fragment, from every abstract "
+    "pre-state: indent stack of any depth as a summarised run + explicit top, arbitrary input string as text / line break / rest; emitted text, post-state, no panic), (7) the driver (fmt prefix, "
+    "fmt loop body with the dispatch function stubbed, dispatch function per traversal edge incl. last-sibling flag), (5) format modes per fmt body. When (6)/(7) meet an unmodelled construct "
+    "they give no verdict (NOTE + undecided_clauses in the evidence) and the structural origin/dominance clauses (1)-(4) take over. The induction that composes the step tables over the Euler "
+    "tour into the whole text is written, not machine-checked.",
+    "5/C14, 11.7, 11.8", "Relies on C09 for what the Traverse yields; payload Display/Debug impls are arbitrary callers of write_str.",
+    "abstract interpretation of MIR (summarised sequences, symbolic strings, generic-iteration probes) against reference transducers + origin/dominance rules over MIR")
 CHECKS["C15"] = ("other",
     "Partial claim, structural necessary conditions only: the generated code interpolates the arena and root expressions exactly once each (arena first), each node expression exactly once, "
-    "constructs each action kind at one site, and names only append_value/new_node/get/parent. That the built tree's nesting and order equal the literal for every input (the flattening "
-    "stack machine) is NOT decided and not claimed.",
+    "constructs each action kind at one site, names only append_value/new_node/get/parent, the stack discipline and Append/Nest/Parent pairing of the flattening loop, the cursor assignments "
+    "of the three templates, and that no other function emits tokens. That the built tree's nesting and order equal the literal for every input (the induction over the flattening "
+    "stack machine) is NOT machine-checked and not claimed.",
     "5/C15", "quote!/syn trusted; the emitted API calls are covered by C03/C07.", "origin and call-site rules over the proc-macro's MIR, identifier constants read from quote! expansions")
 
 PENDING = "check under construction in this build round (DESIGN.md section 10); not claimed until its engine part exists"
